@@ -236,6 +236,10 @@ def tbLineCore (d : TBDrv) (lineNo : Nat) (ts : List String) : TBDrv × List Str
   | "hang" :: _ =>
     let (d, o) := viol d ["C16.engine-hang"] lineNo
     ({ d with model := none, pending := none }, o)
+  | "unsettled" :: _ =>
+    -- every participant had answered, the backend returned the closed hand with its result, and no settlement followed
+    let (d, o) := viol d ["C01.closed-hand-never-settled"] lineNo
+    ({ d with model := none, pending := none, dead := true, cnt := d.cnt.bump "unsettled" }, o)
   | "abort" :: _ =>
     -- the harness dropped this history (the gate's 2 s timer fired while it was starved of CPU): nothing is judged
     ({ d with model := none, pending := none, dead := true, cnt := d.cnt.bump "dropped-by-harness" }, [])
